@@ -20,6 +20,32 @@ using pA = A*;
 using pB = B*;
 using pcA = const A*;
 
+// types whose explicit and implicit convertibility to an arithmetic type differ
+enum class E : int // scoped enumeration: static_cast to/from every arithmetic type, no implicit conversion
+{
+  e0 = 3,
+  e1 = 7
+};
+struct Xb // only *explicitly* convertible to bool
+{
+  explicit operator bool() const;
+};
+struct Xd // only *explicitly* convertible to double
+{
+  explicit operator double() const;
+};
+
+// accumulator of the `accum` route (signal<Sig>::accumulated<tp::Acc>); never instantiated by connect()
+struct Acc
+{
+  using result_type = int;
+  template<typename I>
+  int operator()(I, I) const
+  {
+    return 0;
+  }
+};
+
 // an expression of declared type E: `mk<T&>()` lvalue, `mk<const T&>()` const lvalue, `mk<T&&>()` xvalue,
 // `mk<T>()` prvalue.  Declared only (probes are compiled with -fsyntax-only).
 template<typename E>
